@@ -122,7 +122,7 @@ theorem C10_linear_guard (env : Env) (hlin : Linear env) (s : St) (hl : s.loops 
 guard error (executed on the generated guard value). -/
 def selfLoopEnv : Env :=
   { isFrame := fun _ => false, unwrap := fun _ => .one 0, elabFn := fun _ _ => .none, elabHide := fun _ => false,
-    weakrefable := fun _ => true, genLike := fun _ => false, withContexts := false, ctxErrs := fun _ => [] }
+    weakrefable := fun _ => true, genLike := fun _ => false, frameOf := fun _ => none, withContexts := false, ctxErrs := fun _ => [] }
 
 theorem C10_guard_fires : extract selfLoopEnv (SS.Gen.unwrapGuard + 5) 0 = .done [] (.one (.item 0)) [.guard] := by
   decide +kernel
@@ -137,7 +137,7 @@ def exEnv : Env :=
   { isFrame := fun i => i ≥ 10
     unwrap := fun i => if i = 0 then .seq [some 10, some 11, some 12] else .none
     elabFn := fun i _ => if i = 10 then .seq [.item 13, .next] else if i = 13 then .seq [] else .none
-    elabHide := fun _ => false, weakrefable := fun _ => true, genLike := fun _ => false
+    elabHide := fun _ => false, weakrefable := fun _ => true, genLike := fun _ => false, frameOf := fun _ => none
     withContexts := false, ctxErrs := fun _ => [] }
 
 example : extract exEnv 50 0 =
